@@ -16,10 +16,10 @@ def fixes():
             rows.append(f"| {e.get('commit')} | {e['id']} | {e['property']} | {cell(e.get('what') or e.get('record'), 260)} |")
     return '\n'.join(rows)
 def known():
-    rows = ['| finding | property | what fails (specific input / call site) | why it is not repaired |', '|---|---|---|---|']
+    rows = ['| finding | property | what fails (specific input / call site) |', '|---|---|---|']
     for e in kf:
         if e.get('kind') != 'fixed':
-            rows.append(f"| {e['id']} | {e['property']} | {cell(e.get('what'), 300)} | {cell(e.get('why_not_fixed') or e.get('why_known') or e.get('note') or '', 200)} |")
+            rows.append(f"| {e['id']} | {e['property']} | {cell(e.get('what'), 420)} |")
     return '\n'.join(rows)
 def seeded():
     res = json.loads((ROOT / 'seeded' / 'results.json').read_text())
